@@ -142,6 +142,10 @@ func init() {
 		}
 		return &Value{T: env.e.W.reflectType(), L: []*Term{typeCodeTerm(tn.Type())}}
 	}
+	// runes(s): the number of runes of a string (utf8.RuneCountInString as the engine models it)
+	specFuncs["runes"] = func(env *SpecEnv, a []*Value) *Value {
+		return &Value{T: tInt, L: []*Term{UF("unicode_utf8.RuneCountInString_r00", SBV(64), a[0].L...)}}
+	}
 	// ptrof(v): the pointer held by a dynamic value
 	specFuncs["ptrof"] = func(env *SpecEnv, a []*Value) *Value {
 		return &Value{T: nil, L: []*Term{VSel("ptr_of", a[0].One())}}
